@@ -265,4 +265,22 @@ theorem exWitness_run :
     let c := runFirst exM 100 (initConfig exM exWitness false)
     c.log.map (·.path) = [[1, 1], []] ∧ c.out = [.error ['?'], .reply ['z']] ∧ c.threads.all (·.isEmpty) = true := by
   refine ⟨by decide, by decide, by decide⟩
+
+/-- a machine with a threaded plugin `T` (command `c`); `b` replies twice -/
+def exR : MCfg :=
+  { ev := ⟨10, 100, false, ['E'], fun _ => ['H'], ['I']⟩,
+    disp := fun a => match a with
+      | [] => .exc .indexError
+      | cmd :: rest => .run 0 (if cmd = ['c'] then ['T'] else ['P']) [cmd] rest,
+    beh := fun _ c _ => if c = [['b']] then ⟨[.reply ['x'], .reply ['y']], none⟩ else ⟨[.reply ['z']], none⟩,
+    inv := fun _ _ _ => ⟨false, .error ['?']⟩,
+    threaded := fun p => p = ['T'], nestText := [], ambigText := fun _ _ => [], assertText := ['A'] }
+
+/-- `a [b] [c] [d]` -/
+def exRace : List Arg := [.str ['a'], .sub [.str ['b']], .sub [.str ['c']], .sub [.str ['d']]]
+
+/-- main thread up to the hand-off of `c`; then the thread's reply and `b`'s second reply reach the
+line's proxy together, both resume its `evalArgs`, both find `[d]` unevaluated -/
+def exRaceSchedule : List Nat :=
+  [0, 0, 0, 0, 0, 0, 0, 0, 0, 0, 0, 1, 1, 0, 0, 1, 0, 1, 0, 1, 0, 0, 1, 1]
 end C14
